@@ -104,30 +104,29 @@ def BufExpr.pos : BufExpr → Bool
   | .min a b => a.pos && b.pos
   | .max a b => a.pos || b.pos
 
-/-- Prefix (Polish) token form, as emitted by the fact extractor: `min len 16384`. -/
-def BufExpr.tokens : BufExpr → List String
-  | .lit n => [toString n]
-  | .len => ["len(data)"]
-  | .min a b => "min" :: a.tokens ++ b.tokens
-  | .max a b => "max" :: a.tokens ++ b.tokens
+/-- Prefix (Polish) token form, as emitted by the fact extractor: `min len(data) lit:16384`. -/
+def BufExpr.tokens : BufExpr → List (String × Nat)
+  | .lit n => [("lit", n)]
+  | .len => [("len(data)", 0)]
+  | .min a b => ("min", 0) :: a.tokens ++ b.tokens
+  | .max a b => ("max", 0) :: a.tokens ++ b.tokens
 
-def BufExpr.parseFuel : Nat → List String → Option (BufExpr × List String)
+def BufExpr.parseFuel : Nat → List (String × Nat) → Option (BufExpr × List (String × Nat))
   | 0, _ => none
   | _, [] => none
   | fuel + 1, t :: ts =>
-    if t == "len(data)" then some (.len, ts)
-    else if t == "min" || t == "max" then
+    if t.1 = "len(data)" then some (.len, ts)
+    else if t.1 = "lit" then some (.lit t.2, ts)
+    else if t.1 = "min" ∨ t.1 = "max" then
       match parseFuel fuel ts with
       | none => none
       | some (a, ts1) =>
         match parseFuel fuel ts1 with
         | none => none
-        | some (b, ts2) => some (if t == "min" then .min a b else .max a b, ts2)
-    else match t.toNat? with
-      | some n => some (.lit n, ts)
-      | none => none
+        | some (b, ts2) => some (if t.1 = "min" then .min a b else .max a b, ts2)
+    else none
 
-def BufExpr.parse (ts : List String) : Option BufExpr :=
+def BufExpr.parse (ts : List (String × Nat)) : Option BufExpr :=
   match BufExpr.parseFuel (ts.length + 1) ts with
   | some (e, []) => some e
   | _ => none
@@ -539,5 +538,111 @@ def Within (dir p : Path) : Prop := dir <+: p
 def idxOf (tr : List Sys) (e : Sys) : Option Nat :=
   let i := tr.idxOf e
   if i < tr.length then some i else none
+
+/-! ## Source rendering (for `Tie/C13.lean`)
+
+The outline of the Go functions as the fact extractor prints it (`tools/extract/facts_C13.go`:
+one line per statement in source order, nesting marked with `>`), generated from the programs above:
+a change of the order of calls/defers, of a mode, of the buffer expression or of the branch
+structure changes the regenerated facts and breaks the tie. -/
+namespace Source
+
+def goOctal (n : Nat) : String := "0" ++ String.ofList (Nat.toDigits 8 n)
+
+def writeFileStmt : Stmt → List String
+  | ⟨false, .openParent⟩ =>
+    ["parent, err := os.OpenFile(filepath.Dir(name), os.O_RDONLY|syscall.O_DIRECTORY, 0)", "if err != nil", ">return &os.PathError"]
+  | ⟨true, .syncCloseParent⟩ => ["defer fsyncAndClose(parent, &err)"]
+  | ⟨false, .createTemp⟩ =>
+    ["f, err := os.CreateTemp(filepath.Dir(name), \".\"+filepath.Base(name))", "if err != nil", ">return &os.PathError"]
+  | ⟨true, .renameOrRemove⟩ =>
+    ["defer func(f.Name())", ">if err == nil", ">>err = os.Rename(tmpname, name)", ">if err != nil", ">>os.Remove(tmpname)"]
+  | ⟨false, .chmod⟩ => ["err = f.Chmod(perm)", "if err != nil", ">f.Close()", ">return err"]
+  | ⟨true, .syncCloseTmp⟩ => ["defer fsyncAndClose(f, &err)"]
+  | ⟨false, .write⟩ => ["_, err = f.Write(data)", "return err"]
+  | _ => ["<not a statement of WriteFile>"]
+
+def writeFile : List String := writeFileProgram.flatMap writeFileStmt
+
+def mkdirStmt : Stmt → List String
+  | ⟨false, .openParent⟩ =>
+    ["parent, err := os.OpenFile(filepath.Dir(path), os.O_RDONLY|syscall.O_DIRECTORY, 0)", "if err != nil", ">return &os.PathError"]
+  | ⟨true, .syncCloseParent⟩ => ["defer fsyncAndClose(parent, &err)"]
+  | ⟨false, .mkdir⟩ => ["if err := os.Mkdir(path, perm); err != nil && !os.IsExist(err)", ">return err"]
+  | ⟨false, .openSelf⟩ =>
+    ["f, err := os.OpenFile(path, os.O_RDONLY|syscall.O_DIRECTORY, 0)", "if err != nil", ">return &os.PathError"]
+  | ⟨true, .syncCloseSelf⟩ => ["defer fsyncAndClose(f, &err)"]
+  | _ => ["<not a statement of Mkdir>"]
+
+def mkdir : List String := mkdirProgram.flatMap mkdirStmt ++ ["return nil"]
+
+/-- `fsyncAndClose`: sync only if there was no error so far, close always (`effSys .syncClose…`). -/
+def fsyncAndClose : List String :=
+  ["if *err == nil", ">*err = f.Sync()", "if err1 := f.Close(); err1 != nil && *err == nil", ">*err = err1"]
+
+/-- `MkdirAll` (`mkdirAllRev`): existing directory → done, existing non-directory → error,
+otherwise the parent first, then `Mkdir`. -/
+def mkdirAll : List String :=
+  ["if dir, err := os.Stat(path); err == nil", ">if dir.IsDir()", ">>return nil", ">return &os.PathError",
+   "path = filepath.Clean(path)",
+   "if parent := filepath.Dir(path); parent != path && parent != filepath.VolumeName(path)",
+   ">if err := MkdirAll(parent, perm); err != nil", ">>return err",
+   "return Mkdir(path, perm)"]
+
+def BufExpr.go : BufExpr → String
+  | .lit n => toString n
+  | .len => "len(data)"
+  | .min a b => "min(" ++ BufExpr.go a ++ ", " ++ BufExpr.go b ++ ")"
+  | .max a b => "max(" ++ BufExpr.go a ++ ", " ++ BufExpr.go b ++ ")"
+
+/-- `compareFile` (`compareLoop`) with the buffer expression of program `P`. -/
+def compareFile (P : Program) : List String :=
+  ["b := make([]byte, " ++ BufExpr.go P.buf ++ ")",
+   "for ",
+   ">n, err := f.Read(b)",
+   ">if err != nil && err != io.EOF", ">>return err",
+   ">if n > len(data) || !bytes.Equal(b[:n], data[:n])", ">>return errors.New",
+   ">data = data[n:]",
+   ">if err == io.EOF", ">>if len(data) == 0", ">>>return nil", ">>return errors.New"]
+
+/-- `LocalBackend.Upload` (`uploadTrace`): Localize first, Join, MkdirAll of the parent, the
+immutable compare branch, the deferred best-effort inode flag, WriteFile. -/
+def upload : List String :=
+  ["defer prometheus.NewTimer(s.duration.WithLabelValues(\"upload\")).ObserveDuration()",
+   "name, err := filepath.Localize(key)", "if err != nil", ">return fmtErrorf",
+   "path := filepath.Join(s.dir, name)",
+   "if err := durable.MkdirAll(filepath.Dir(path), " ++ goOctal modeDir ++ "); err != nil", ">return fmtErrorf",
+   "var perms os.FileMode = " ++ goOctal modeDefault,
+   "if opts != nil && opts.Immutable",
+   ">perms = " ++ goOctal modeImmutable,
+   ">if f, err := os.Open(path); err == nil",
+   ">>defer f.Close()",
+   ">>if err := compareFile(f, data); err != nil", ">>>return fmtErrorf",
+   ">>return nil",
+   ">defer func()",
+   ">>if err != nil", ">>>return ",
+   ">>var f *os.File",
+   ">>f, err = os.Open(path)",
+   ">>if err != nil", ">>>return ",
+   ">>immutable.Set(f)",
+   ">>err = f.Close()",
+   "return durable.WriteFile(path, data, perms)"]
+
+def fetch : List String :=
+  ["defer prometheus.NewTimer(s.duration.WithLabelValues(\"fetch\")).ObserveDuration()",
+   "name, err := filepath.Localize(key)", "if err != nil", ">return nil, fmtErrorf",
+   "path := filepath.Join(s.dir, name)",
+   "return os.ReadFile(path)"]
+
+def discard : List String :=
+  ["defer prometheus.NewTimer(s.duration.WithLabelValues(\"discard\")).ObserveDuration()",
+   "name, err := filepath.Localize(key)", "if err != nil", ">return fmtErrorf",
+   "path := filepath.Join(s.dir, name)",
+   "f, err := os.Open(path)", "if err != nil", ">return fmtErrorf",
+   "immutable.Unset(f)",
+   "if err := f.Close(); err != nil", ">return fmtErrorf",
+   "return os.Remove(path)"]
+
+end Source
 
 end LocalFS
